@@ -102,7 +102,7 @@ def run_scenario(sc, base, fast=True, mode='each', real_passes=None, on_test=Non
         with open(spec, 'w') as f:
             json.dump({'names': names, 'rules': sc['rules'], 'log': spec + '.log'}, f)
         with open(script, 'w') as f:
-            f.write('#!/bin/sh\nexec /venv/bin/python /verif/tools/vlib/testscript.py %s\n' % spec)
+            f.write('#!/bin/sh\nexec /venv/bin/python %s %s\n' % (os.path.join(os.path.dirname(os.path.abspath(__file__)), 'testscript.py'), spec))
     os.chmod(script, 0o755)
 
     o = Obs()
